@@ -18,6 +18,12 @@ sc=/tmp/wt/base-$id
 git -C /repo worktree add --detach $sc HEAD >/dev/null 2>&1
 git -C $sc apply $out/patch.diff; ap=$?
 /verif/tools/baseline.py $sc > $out/baseline.log 2>&1; rc_base=$?
+# tests that do not pass on the unpatched HEAD in this sandbox either (environment: e.g. the python3.13 pyenv shim) do not count
+[ -s /tmp/wt/base_head_missing.txt ] || { /verif/tools/baseline.py /repo | grep "NOT PASSING" | sort > /tmp/wt/base_head_missing.txt; }
+if [ $rc_base != 0 ]; then
+  grep "NOT PASSING" $out/baseline.log | sort > /tmp/wt/missing-$id.txt
+  if [ -z "$(comm -23 /tmp/wt/missing-$id.txt /tmp/wt/base_head_missing.txt)" ]; then rc_base=0; echo "(only tests that also do not pass on the unpatched HEAD here)" >> $out/baseline.log; fi
+fi
 git -C /repo worktree remove --force $sc
 python3 - <<PY
 import json
